@@ -18,6 +18,7 @@ func driveMpack(c *Ctx) error {
 				v := Concretize(asJ(vj), rep)
 				for _, ty := range tys {
 					ev := J{"ev": "mp", "v": Project(v), "ty": ProjectType(ty), "eq": "U"}
+					ev["ia"] = digestOf(ev["v"], ev["ty"])
 					var b []byte
 					var err error
 					p, msg := guard(func() { b, err = msgpack.Marshal(v, ty) })
@@ -58,6 +59,7 @@ func driveMpack(c *Ctx) error {
 					if _, ok := ev["back"]; !ok {
 						ev["back"] = J{"ok": false, "fail": "skipped"}
 					}
+					ev["ia2"] = digestOf(Project(v), ProjectType(ty))
 					c.Out.Emit(ev)
 				}
 			}
